@@ -1,2 +1,888 @@
-// Package c16 will hold the check for property C16.
+// Package c16 decides C16: every message that enters a mailbox produces exactly one "stored"
+// event and every message that leaves one - explicit delete, purge, mailbox cap, size limit,
+// retention - exactly one "deleted" event with the same identity, on both back ends; a listener
+// is never invoked while its previous invocation is still running, so it observes stored(m)
+// before deleted(m) and the deliveries to one mailbox in arrival order.
+//
+// Listeners are registered through the public extension API (one name for both event types), a
+// msghub.Hub is attached as in production, and the real StoreManager / stores / retention scanner
+// are driven with generated histories.  The reference model (model.Store with cap and size limit)
+// says which messages leave and why.  Verdicts are formed at logical quiescence of the
+// asynchronous dispatch.
 package c16
+
+import (
+	"context"
+	"errors"
+	"fmt"
+	"runtime"
+	"sort"
+	"strconv"
+	"strings"
+	"sync"
+	"time"
+
+	"github.com/inbucket/inbucket/v3/pkg/config"
+	"github.com/inbucket/inbucket/v3/pkg/extension/event"
+	"github.com/inbucket/inbucket/v3/pkg/msghub"
+	"github.com/inbucket/inbucket/v3/pkg/policy"
+	"github.com/inbucket/inbucket/v3/pkg/storage"
+
+	"verifharness/internal/fw"
+	"verifharness/internal/model"
+	"verifharness/internal/sut"
+)
+
+type cfg struct {
+	Backend string `json:"backend"`
+	Cap     int    `json:"cap"`
+	MaxKB   int    `json:"maxkb"`
+}
+
+func (k cfg) String() string { return fmt.Sprintf("%s/cap%d/maxkb%d", k.Backend, k.Cap, k.MaxKB) }
+
+// The twelve store configurations.
+var configs = []cfg{
+	{"mem", 0, 0}, {"mem", 2, 0}, {"mem", 5, 0}, {"mem", 0, 4}, {"mem", 3, 4}, {"mem", 1, 8},
+	{"file", 0, 0}, {"file", 1, 0}, {"file", 2, 0}, {"file", 3, 0}, {"file", 5, 0}, {"file", 8, 0},
+}
+
+var procs = []int{1, 2, 16}
+var histLens = []int{1, 3, 10, 30}
+
+func init() {
+	fw.Register(&fw.Prop{
+		ID:    "C16",
+		Level: "exploration",
+		Race:  true,
+		Rule: "histories generated from (seed, index) over 12 store configurations (mem/file x cap x maxkb) x GOMAXPROCS{1,2,16} x hub history{1,3,10,30}: " +
+			"deliveries through StoreManager.Deliver (1-4 recipients, aliases of one mailbox, non-stored domain), bursts of 10-40 deliveries to one mailbox, " +
+			"removes (store/manager, existing and missing), purges, cap and size evictions, retention scans (period 1ns = everything, 1h = nothing); " +
+			"stream seq = one sequential client, stream conc = 2-4 client goroutines on disjoint mailboxes. One listener name on both after-event brokers " +
+			"records entry/exit on a logical clock and does seeded work (0-3 Gosched, 0-100us spin/sleep). Non-trivial: a history with >=1 stored and >=1 " +
+			"deleted event, distinct by (configuration, GOMAXPROCS, set of departure reasons, event-count bucket, stream).",
+		Assumptions: []string{
+			"all deliveries go through StoreManager.Deliver (Store.AddMessage alone is not specified to emit a stored event)",
+			"the id of a delivered message is read back from the store (GetMessages) after the delivery; for a message the model says was evicted at once the id is taken from the k-th stored event of that mailbox",
+			"quiescence is logical: no invocation in flight, goroutine count back at the pre-history baseline, completed-invocation count stable over 6 polls; a watchdog expiry is inconclusive",
+			"the relative order of events of different mailboxes / different messages is not judged, only per-mailbox stored order and stored-before-deleted per message",
+			"hub replay: must be an in-order, duplicate-free subsequence of the live messages, at most N long, and contain every live message among the last N stored (the hub keeps the last N stored events and blanks deleted ones; a hub that compacts would also pass)",
+			"concurrent clients own disjoint mailboxes and run without a global size limit, so each mailbox's history is sequential",
+		},
+		MinObs: func(tier string) map[string]int64 {
+			m := map[string]int64{
+				"events_stored": 5000, "events_deleted": 2000,
+				"deleted:cap": 200, "deleted:size": 50, "deleted:purge": 100, "deleted:remove": 100, "deleted:retention": 50,
+				"histories:seq": 100, "histories:conc": 30, "hub_replays_checked": 100, "hub_replay_messages": 200,
+				"bursts": 50, "deliveries_not_stored_domain": 20, "removes_of_missing": 20, "deliveries_refused_oversize": 10,
+				"gomaxprocs:1": 10, "gomaxprocs:2": 10, "gomaxprocs:16": 10,
+				"distinct_nontrivial": 100,
+			}
+			for _, k := range configs {
+				m["config:"+k.String()] = 5
+			}
+			return m
+		},
+		Run: run,
+	})
+}
+
+func run(c *fw.Ctx) {
+	defer runtime.GOMAXPROCS(4)
+	c.Cases("seq", c.N(12*70, 12*700), func(i int, r *fw.Rand) { runHistory(c, i, r, false) })
+	c.Cases("conc", c.N(12*20, 12*200), func(i int, r *fw.Rand) { runHistory(c, i, r, true) })
+}
+
+// mrec is the model's record of one delivered message.
+type mrec struct {
+	M      *model.Msg
+	Client int
+	Reason string // "" while live; remove | purge | cap | size | retention
+	known  bool   // the id was read back from the store
+}
+
+// world is one client's view: its model and its deliveries in order.
+type world struct {
+	env     *sut.Env
+	k       cfg
+	client  int
+	mdl     *model.Store
+	all     []*mrec
+	byMsg   map[*model.Msg]*mrec
+	log     []string
+	bad     string // a harness assumption failed; the history is inconclusive
+	nextPh  int
+	origin  *policy.Origin
+	counts  map[string]int64
+	touched map[string]bool
+}
+
+const recvdHeader = "Received: from client.test ([127.0.0.1]) by inbucket.test"
+const senderAddr = "sender@origin.test"
+const tstampLen = 37 // "Mon, 02 Jan 2006 15:04:05 -0700 (MST)" rendered in UTC
+
+func newWorld(env *sut.Env, k cfg, client int, withLimit bool) *world {
+	limit := int64(0)
+	if withLimit {
+		limit = int64(k.MaxKB) * 1024
+	}
+	o, err := env.Policy.ParseOrigin(senderAddr)
+	if err != nil {
+		panic(err)
+	}
+	return &world{env: env, k: k, client: client, mdl: model.New(k.Cap, limit), byMsg: map[*model.Msg]*mrec{},
+		origin: o, counts: map[string]int64{}, touched: map[string]bool{}}
+}
+
+func (w *world) logf(format string, a ...any) {
+	if len(w.log) < 400 {
+		w.log = append(w.log, fmt.Sprintf(format, a...))
+	}
+}
+
+func storedSize(mailbox string, source []byte) int64 {
+	return int64(len("Return-Path: <"+senderAddr+">\r\n") + len(recvdHeader) + len("  for <") + len(mailbox) + len(">; ") + tstampLen + 2 + len(source))
+}
+
+// sync aligns the model's live list of a mailbox with what the store lists, learning ids.
+func (w *world) sync(mailbox string) {
+	if w.bad != "" {
+		return
+	}
+	ms, err := w.env.Store.GetMessages(mailbox)
+	if err != nil {
+		w.bad = fmt.Sprintf("GetMessages(%q): %v", mailbox, err)
+		return
+	}
+	live := w.mdl.List(mailbox)
+	if len(ms) != len(live) {
+		w.bad = fmt.Sprintf("mailbox %q: store lists %d messages, model %d", mailbox, len(ms), len(live))
+		return
+	}
+	for i, m := range live {
+		r := w.byMsg[m]
+		if !r.known {
+			m.ID = ms[i].ID()
+			r.known = true
+			if ms[i].Size() != m.Size {
+				w.bad = fmt.Sprintf("mailbox %q message %q: stored size %d, harness computed %d", mailbox, m.ID, ms[i].Size(), m.Size)
+				return
+			}
+		} else if m.ID != ms[i].ID() {
+			w.bad = fmt.Sprintf("mailbox %q position %d: store has %q, model %q", mailbox, i, ms[i].ID(), m.ID)
+			return
+		}
+	}
+}
+
+func (w *world) syncTouched() {
+	for mb := range w.touched {
+		w.sync(mb)
+	}
+	w.touched = map[string]bool{}
+}
+
+// deliver hands one message to StoreManager.Deliver.  addrs are "local@domain" recipients.
+func (w *world) deliver(addrs []string, body string) {
+	if w.bad != "" {
+		return
+	}
+	var rcpts []*policy.Recipient
+	var boxes []string
+	for _, a := range addrs {
+		rc, err := w.env.Policy.NewRecipient(a)
+		if err != nil {
+			panic(err)
+		}
+		rcpts = append(rcpts, rc)
+		at := strings.LastIndexByte(a, '@')
+		if a[at+1:] == "discard.test" {
+			w.counts["deliveries_not_stored_domain"]++
+			continue
+		}
+		local := a[:at]
+		if p := strings.IndexByte(local, '+'); p >= 0 {
+			local = local[:p]
+		}
+		boxes = append(boxes, strings.ToLower(local))
+	}
+	source := []byte("From: someone@hdr.test\r\nSubject: c16\r\n\r\n" + body + "\r\n")
+	w.logf("deliver %v body=%d", addrs, len(body))
+	// A store with a size limit refuses a message larger than the whole limit: AddMessage fails,
+	// nothing is stored or announced for that copy, and Deliver stops there (earlier copies stay).
+	refusedAt := -1
+	if w.mdl.Limit > 0 {
+		for i, mb := range boxes {
+			if storedSize(mb, source) > w.mdl.Limit {
+				refusedAt = i
+				break
+			}
+		}
+	}
+	err := w.env.Manager.Deliver(w.origin, rcpts, recvdHeader, source)
+	switch {
+	case err != nil && refusedAt < 0:
+		w.bad = fmt.Sprintf("Deliver(%v): %v", addrs, err)
+		return
+	case err != nil:
+		w.logf("  refused: %v", err)
+		w.counts["deliveries_refused_oversize"]++
+		boxes = boxes[:refusedAt]
+	case refusedAt >= 0:
+		// Accepted although it can never be retained: it entered the mailbox and left it at once
+		// (the model below says so), and must be announced accordingly.
+		w.counts["deliveries_oversize_accepted"]++
+	}
+	for _, mb := range boxes {
+		w.nextPh++
+		m := &model.Msg{Mailbox: mb, ID: "?" + strconv.Itoa(w.client) + "." + strconv.Itoa(w.nextPh), Size: storedSize(mb, source)}
+		r := &mrec{M: m, Client: w.client}
+		w.byMsg[m] = r
+		w.all = append(w.all, r)
+		ev, _ := w.mdl.Add(m)
+		w.touched[mb] = true
+		for _, e := range ev {
+			w.byMsg[e.Msg].Reason = e.Reason
+			w.touched[e.Msg.Mailbox] = true
+			w.logf("  model: %s evicts %s/%s", e.Reason, e.Msg.Mailbox, e.Msg.ID)
+		}
+	}
+	w.syncTouched()
+}
+
+func (w *world) liveList() []*mrec {
+	var l []*mrec
+	for _, r := range w.all {
+		if r.Reason == "" {
+			l = append(l, r)
+		}
+	}
+	return l
+}
+
+func (w *world) remove(r *mrec, viaManager bool) {
+	if w.bad != "" {
+		return
+	}
+	w.logf("remove %s/%s manager=%v", r.M.Mailbox, r.M.ID, viaManager)
+	var err error
+	if viaManager {
+		err = w.env.Manager.RemoveMessage(r.M.Mailbox, r.M.ID)
+	} else {
+		err = w.env.Store.RemoveMessage(r.M.Mailbox, r.M.ID)
+	}
+	if err != nil {
+		w.bad = fmt.Sprintf("RemoveMessage(%q,%q): %v", r.M.Mailbox, r.M.ID, err)
+		return
+	}
+	w.mdl.Remove(r.M.Mailbox, r.M.ID)
+	r.Reason = "remove"
+	w.sync(r.M.Mailbox)
+}
+
+func (w *world) removeMissing(mailbox string) {
+	if w.bad != "" {
+		return
+	}
+	w.logf("remove-missing %s", mailbox)
+	err := w.env.Store.RemoveMessage(mailbox, "20010101T000000-9999")
+	if err == nil {
+		w.bad = "RemoveMessage of a missing message succeeded"
+		return
+	}
+	if !errors.Is(err, storage.ErrNotExist) {
+		w.bad = "RemoveMessage of a missing message: " + err.Error()
+	}
+	w.counts["removes_of_missing"]++
+}
+
+func (w *world) purge(mailbox string, viaManager bool) {
+	if w.bad != "" {
+		return
+	}
+	w.logf("purge %s manager=%v", mailbox, viaManager)
+	var err error
+	if viaManager {
+		err = w.env.Manager.PurgeMessages(mailbox)
+	} else {
+		err = w.env.Store.PurgeMessages(mailbox)
+	}
+	if err != nil {
+		w.bad = fmt.Sprintf("PurgeMessages(%q): %v", mailbox, err)
+		return
+	}
+	for _, m := range w.mdl.Purge(mailbox) {
+		w.byMsg[m].Reason = "purge"
+	}
+	w.sync(mailbox)
+}
+
+// scan runs one retention scan.  Every message was dated "now" by Deliver, so a period of one
+// nanosecond expires all of them and a period of one hour none.
+func (w *world) scan(all bool, boxes []string) {
+	if w.bad != "" {
+		return
+	}
+	period := time.Hour
+	if all {
+		period = time.Nanosecond
+	}
+	w.logf("retention-scan period=%s", period)
+	rs := storage.NewRetentionScanner(config.Storage{RetentionPeriod: period, RetentionSleep: 0}, w.env.Store)
+	if err := rs.DoScan(context.Background()); err != nil {
+		w.bad = "DoScan: " + err.Error()
+		return
+	}
+	if all {
+		for _, mb := range w.mdl.Names() {
+			for _, m := range w.mdl.Purge(mb) {
+				w.byMsg[m].Reason = "retention"
+			}
+		}
+	}
+	for _, mb := range boxes {
+		w.sync(mb)
+	}
+}
+
+func body(r *fw.Rand, k cfg) string {
+	n := r.Range(20, 400)
+	if k.MaxKB > 0 {
+		switch r.Weighted([]int{6, 3, 1}) {
+		case 0:
+			n = r.Range(100, 900)
+		case 1:
+			n = r.Range(900, 2500)
+		case 2:
+			n = r.Range(k.MaxKB*1024-200, k.MaxKB*1024+600) // around or above the whole limit
+		}
+	}
+	return r.Letters(n, "abcdefghijklmnopqrstuvwxyz ")
+}
+
+// play generates and executes one client's history.  boxes are the mailboxes it owns.
+func (w *world) play(r *fw.Rand, boxes []string, nops int, allowScan bool) {
+	addr := func(mb string) string {
+		switch r.Intn(6) {
+		case 0:
+			return mb + "+tag" + r.Letters(2, "xyz") + "@store.test"
+		case 1:
+			return strings.ToUpper(mb[:1]) + mb[1:] + "@store.test"
+		}
+		return mb + "@store.test"
+	}
+	for op := 0; op < nops && w.bad == ""; op++ {
+		switch r.Weighted([]int{50, 8, 14, 4, 5, 3}) {
+		case 0: // deliver to 1-4 recipients
+			n := []int{1, 1, 1, 2, 2, 3, 4}[r.Intn(7)]
+			var as []string
+			for j := 0; j < n; j++ {
+				if r.Chance(1, 8) {
+					as = append(as, "nobody"+strconv.Itoa(j)+"@discard.test")
+				} else {
+					as = append(as, addr(boxes[r.Intn(len(boxes))]))
+				}
+			}
+			w.deliver(as, body(r, w.k))
+		case 1: // burst to one mailbox
+			mb := boxes[r.Intn(len(boxes))]
+			n := r.Range(10, 40)
+			w.counts["bursts"]++
+			for j := 0; j < n && w.bad == ""; j++ {
+				w.deliver([]string{mb + "@store.test"}, r.Letters(r.Range(5, 60), "abcdefgh"))
+			}
+		case 2: // remove an existing message
+			live := w.liveList()
+			if len(live) == 0 {
+				continue
+			}
+			w.remove(live[r.Intn(len(live))], r.Bool())
+		case 3:
+			w.removeMissing(boxes[r.Intn(len(boxes))])
+		case 4:
+			w.purge(boxes[r.Intn(len(boxes))], r.Bool())
+		case 5:
+			if allowScan {
+				w.scan(r.Chance(2, 3), boxes)
+			}
+		}
+	}
+}
+
+type verdict struct{ key, what string }
+
+func runHistory(c *fw.Ctx, idx int, r *fw.Rand, concurrent bool) {
+	k := configs[idx%len(configs)]
+	if concurrent && k.MaxKB > 0 {
+		k.MaxKB = 0 // a global size limit would couple the clients' mailboxes
+		k.Cap = []int{1, 2, 4}[(idx/len(configs))%3]
+	}
+	np := procs[(idx/len(configs))%len(procs)]
+	hl := histLens[r.Intn(len(histLens))]
+	stream := "seq"
+	if concurrent {
+		stream = "conc"
+	}
+	conf := sut.DefaultConf()
+	conf.SMTP.DiscardDomains = []string{"discard.test"}
+	conf.Storage.MailboxMsgCap = k.Cap
+	conf.Web.MonitorHistory = hl
+	if k.Backend == "file" {
+		conf.Storage.Type = "file"
+		conf.Storage.Params = map[string]string{"path": c.TempDir("c16fs")}
+	} else if k.MaxKB > 0 {
+		conf.Storage.Params = map[string]string{"maxkb": strconv.Itoa(k.MaxKB)}
+	}
+	runtime.GOMAXPROCS(np)
+	env, err := sut.NewEnv(conf, k.Backend)
+	if err != nil {
+		panic(err)
+	}
+	rc := &recorder{seed: r.Uint64()}
+	env.ExtHost.Events.AfterMessageStored.AddListener("verif-c16", func(md event.MessageMetadata) { rc.handle("stored", md) })
+	env.ExtHost.Events.AfterMessageDeleted.AddListener("verif-c16", func(md event.MessageMetadata) { rc.handle("deleted", md) })
+	hub := msghub.New(hl, env.ExtHost)
+	hctx, hcancel := context.WithCancel(context.Background())
+	hubDone := make(chan struct{})
+	go func() {
+		hub.Start(hctx)
+		close(hubDone)
+	}()
+	defer func() {
+		hcancel()
+		<-hubDone
+	}()
+	if ok, dump := c.Within(20*time.Second, hub.Sync); !ok {
+		c.Hang("hub-sync", "Hub.Sync did not return on an idle hub", dump)
+		return
+	}
+	baseline := settle()
+
+	// Generate and play.
+	var worlds []*world
+	if !concurrent {
+		nb := r.Range(1, 4)
+		var boxes []string
+		for j := 0; j < nb; j++ {
+			boxes = append(boxes, "b"+strconv.Itoa(j))
+		}
+		w := newWorld(env, k, 0, true)
+		worlds = append(worlds, w)
+		w.play(r, boxes, r.Range(10, 45), true)
+	} else {
+		nc := r.Range(2, 4)
+		var wg sync.WaitGroup
+		start := make(chan struct{})
+		for j := 0; j < nc; j++ {
+			w := newWorld(env, k, j, false)
+			worlds = append(worlds, w)
+			nb := r.Range(1, 2)
+			var boxes []string
+			for b := 0; b < nb; b++ {
+				boxes = append(boxes, "c"+strconv.Itoa(j)+"m"+strconv.Itoa(b))
+			}
+			cr := fw.NewRand(r.Uint64(), "client", strconv.Itoa(j))
+			nops := r.Range(6, 25)
+			wg.Add(1)
+			go func() {
+				defer wg.Done()
+				<-start
+				w.play(cr, boxes, nops, false)
+			}()
+		}
+		ok, dump := c.Within(120*time.Second, func() {
+			close(start)
+			wg.Wait()
+		})
+		if !ok {
+			c.Hang("clients-finish", "client goroutines did not finish", dump)
+			return
+		}
+	}
+	detail := map[string]any{"config": k, "gomaxprocs": np, "hub_history": hl, "stream": stream}
+	for _, w := range worlds {
+		detail["ops_client"+strconv.Itoa(w.client)] = w.log
+		for n, v := range w.counts {
+			c.Count(n, v)
+		}
+	}
+	for _, w := range worlds {
+		if w.bad != "" {
+			// The store did not follow the model (or an operation failed): not this property's
+			// business (C07/C08 decide it), and the expected events are unknown.
+			c.Inconclusive("history abandoned: " + w.bad)
+			c.Count("histories_abandoned", 1)
+			// Let the dispatch drain before the hub is stopped.
+			rc.waitQuiet(baseline, 10*time.Second*time.Duration(c.Slow))
+			return
+		}
+	}
+	if !rc.waitQuiet(baseline, 30*time.Second*time.Duration(c.Slow)) {
+		c.Inconclusive(fmt.Sprintf("event dispatch did not become quiescent (completed %d, goroutines %d, baseline %d)",
+			rc.done.Load(), runtime.NumGoroutine(), baseline))
+		return
+	}
+	recs := rc.records()
+
+	// Hub replay.
+	tap := &hubTap{}
+	ok, dump := c.Within(20*time.Second, func() {
+		hub.Sync()
+		hub.AddListener(tap)
+		hub.Sync()
+	})
+	if !ok {
+		c.Hang("hub-sync", "Hub.Sync did not return after the history", dump)
+		return
+	}
+	replay := tap.received()
+
+	vs, stats := evaluate(recs, worlds, k, !concurrent, replay, hl)
+	detail["events"] = tailRecs(recs, 120)
+	detail["hub_replay"] = replay
+	seen := map[string]bool{}
+	for _, v := range vs {
+		if seen[v.key] {
+			continue
+		}
+		seen[v.key] = true
+		n := 0
+		for _, x := range vs {
+			if x.key == v.key {
+				n++
+			}
+		}
+		c.Violation(v.key, fmt.Sprintf("%s gomaxprocs=%d %s: %s (%d such in this history)", k, np, stream, v.what, n), detail)
+	}
+	c.Count("histories:"+stream, 1)
+	c.Count("config:"+k.String(), 1)
+	c.Count("gomaxprocs:"+strconv.Itoa(np), 1)
+	c.Count("events_stored", stats.stored)
+	c.Count("events_deleted", stats.deleted)
+	c.Count("listener_invocations", int64(len(recs)))
+	c.Max("max_events_per_history", int64(len(recs)))
+	c.Count("hub_replays_checked", 1)
+	c.Count("hub_replay_messages", int64(len(replay)))
+	var reasons []string
+	for rs, n := range stats.byReason {
+		c.Count("deleted:"+rs, n)
+		reasons = append(reasons, rs)
+	}
+	sort.Strings(reasons)
+	if stats.stored > 0 && stats.deleted > 0 {
+		c.NonTrivial(fmt.Sprintf("%s|%s|p%d|%v|ev=%s|hub=%d", stream, k, np, reasons, bucket(len(recs)), hl))
+	}
+	c.Sample(map[string]any{"stream": stream, "config": k.String(), "gomaxprocs": np, "hub_history": hl,
+		"stored_events": stats.stored, "deleted_events": stats.deleted, "departures": stats.byReason, "hub_replay_len": len(replay)})
+}
+
+func tailRecs(l []evRec, n int) []evRec {
+	if len(l) > n {
+		return l[len(l)-n:]
+	}
+	return l
+}
+
+func bucket(n int) string {
+	switch {
+	case n < 10:
+		return "<10"
+	case n < 30:
+		return "10-29"
+	case n < 100:
+		return "30-99"
+	case n < 300:
+		return "100-299"
+	}
+	return "300+"
+}
+
+type evalStats struct {
+	stored, deleted int64
+	byReason        map[string]int64
+}
+
+type boxID struct{ box, id string }
+
+func sortKeys(l []boxID) {
+	sort.Slice(l, func(i, j int) bool {
+		if l[i].box != l[j].box {
+			return l[i].box < l[j].box
+		}
+		return l[i].id < l[j].id
+	})
+}
+
+// evaluate is the oracle.
+func evaluate(recs []evRec, worlds []*world, k cfg, sequential bool, replay []evRec, histLen int) ([]verdict, evalStats) {
+	var vs []verdict
+	st := evalStats{byReason: map[string]int64{}}
+	add := func(key, format string, a ...any) { vs = append(vs, verdict{key, fmt.Sprintf(format, a...)}) }
+
+	// 1. No two invocations of the listener overlap.
+	for i, r := range recs {
+		if r.Others > 0 {
+			add("C16:listener-overlap", "listener entered for %s %s/%s while %d earlier invocation(s) had not returned", r.Kind, r.Mailbox, r.ID, r.Others)
+			break
+		}
+		if i > 0 && r.Enter < recs[i-1].Exit {
+			add("C16:listener-overlap", "listener entered for %s %s/%s (clock %d) before its invocation for %s %s/%s returned (clock %d)",
+				r.Kind, r.Mailbox, r.ID, r.Enter, recs[i-1].Kind, recs[i-1].Mailbox, recs[i-1].ID, recs[i-1].Exit)
+			break
+		}
+	}
+
+	// 2. Stored events per mailbox against the deliveries per mailbox, in order.
+	storedBy := map[string][]evRec{}
+	deletedBy := map[boxID][]evRec{}
+	for _, r := range recs {
+		if r.Kind == "stored" {
+			storedBy[r.Mailbox] = append(storedBy[r.Mailbox], r)
+			st.stored++
+		} else {
+			deletedBy[boxID{r.Mailbox, r.ID}] = append(deletedBy[boxID{r.Mailbox, r.ID}], r)
+			st.deleted++
+		}
+	}
+	delivBy := map[string][]*mrec{}
+	var global []*mrec
+	for _, w := range worlds {
+		for _, r := range w.all {
+			delivBy[r.M.Mailbox] = append(delivBy[r.M.Mailbox], r)
+			global = append(global, r)
+		}
+	}
+	storedAt := map[*mrec]evRec{}
+	boxes := map[string]bool{}
+	for b := range storedBy {
+		boxes[b] = true
+	}
+	for b := range delivBy {
+		boxes[b] = true
+	}
+	var names []string
+	for b := range boxes {
+		names = append(names, b)
+	}
+	sort.Strings(names)
+	for _, b := range names {
+		evs, dl := storedBy[b], delivBy[b]
+		if len(evs) == len(dl) {
+			mismatch := -1
+			for i, r := range dl {
+				if r.known && r.M.ID != evs[i].ID {
+					mismatch = i
+					break
+				}
+			}
+			if mismatch < 0 {
+				for i, r := range dl {
+					if !r.known {
+						r.M.ID = evs[i].ID // evicted at once: the event is the only place its id shows
+					}
+					storedAt[r] = evs[i]
+				}
+				continue
+			}
+			// Same multiset in another order, or different ids?
+			want, have := map[string]int{}, map[string]int{}
+			unknown := 0
+			for _, r := range dl {
+				if r.known {
+					want[r.M.ID]++
+				} else {
+					unknown++
+				}
+			}
+			for _, e := range evs {
+				have[e.ID]++
+			}
+			extra := 0
+			for id, n := range have {
+				if n > want[id] {
+					extra += n - want[id]
+				}
+			}
+			if extra <= unknown {
+				add("C16:stored-order", "mailbox %q: stored events arrived in another order than the deliveries (delivery %d has id %q, event %d carries %q)",
+					b, mismatch, dl[mismatch].M.ID, mismatch, evs[mismatch].ID)
+			} else {
+				add("C16:stored-wrong-identity", "mailbox %q: delivery %d got id %q but stored event %d carries %q",
+					b, mismatch, dl[mismatch].M.ID, mismatch, evs[mismatch].ID)
+			}
+			continue
+		}
+		// Counts differ: say which ids are missing or surplus.
+		want, have := map[string]int{}, map[string]int{}
+		for _, r := range dl {
+			if r.known {
+				want[r.M.ID]++
+			}
+		}
+		for _, e := range evs {
+			have[e.ID]++
+		}
+		if len(evs) < len(dl) {
+			miss := ""
+			for _, r := range dl {
+				if r.known && have[r.M.ID] == 0 {
+					miss = r.M.ID
+					break
+				}
+			}
+			add("C16:missing-stored:"+k.Backend, "mailbox %q: %d deliveries but %d stored events (e.g. none for id %q)", b, len(dl), len(evs), miss)
+		} else {
+			dup := ""
+			for id, n := range have {
+				if n > 1 {
+					dup = id
+				}
+			}
+			if dup != "" {
+				add("C16:duplicate-stored", "mailbox %q: %d deliveries but %d stored events (id %q announced %d times)", b, len(dl), len(evs), dup, have[dup])
+			} else {
+				add("C16:surplus-stored", "mailbox %q: %d deliveries but %d stored events", b, len(dl), len(evs))
+			}
+		}
+		// Match what can be matched by id for the later checks.
+		byID := map[string]evRec{}
+		for _, e := range evs {
+			if _, ok := byID[e.ID]; !ok {
+				byID[e.ID] = e
+			}
+		}
+		for _, r := range dl {
+			if r.known {
+				if e, ok := byID[r.M.ID]; ok {
+					storedAt[r] = e
+				}
+			}
+		}
+	}
+
+	// 3. Deleted events: exactly one per departure, none for anything else.
+	expected := map[boxID]*mrec{}
+	for _, r := range global {
+		if r.Reason == "" {
+			continue
+		}
+		st.byReason[r.Reason]++
+		if strings.HasPrefix(r.M.ID, "?") {
+			// id never learnt (its stored event is missing too); counted below by mailbox only
+			continue
+		}
+		expected[boxID{r.M.Mailbox, r.M.ID}] = r
+	}
+	var ekeys []boxID
+	for key := range expected {
+		ekeys = append(ekeys, key)
+	}
+	sortKeys(ekeys)
+	inverted := map[boxID]bool{}
+	for _, key := range ekeys {
+		r := expected[key]
+		evs := deletedBy[key]
+		switch {
+		case len(evs) == 0:
+			add("C16:missing-deleted:"+r.Reason+":"+k.Backend, "message %s/%s left its mailbox (%s) but no deleted event announced it", key.box, key.id, r.Reason)
+		case len(evs) > 1:
+			add("C16:duplicate-deleted:"+r.Reason, "message %s/%s left its mailbox once (%s) but %d deleted events announced it", key.box, key.id, r.Reason, len(evs))
+		}
+		if len(evs) >= 1 {
+			if se, ok := storedAt[r]; ok && evs[0].Enter < se.Enter {
+				inverted[key] = true
+				add("C16:deleted-before-stored:"+r.Reason, "listener saw deleted %s/%s (clock %d) before stored (clock %d); the message left by %s",
+					key.box, key.id, evs[0].Enter, se.Enter, r.Reason)
+			}
+		}
+	}
+	var dkeys []boxID
+	for key := range deletedBy {
+		dkeys = append(dkeys, key)
+	}
+	sortKeys(dkeys)
+	for _, key := range dkeys {
+		if _, ok := expected[key]; ok {
+			continue
+		}
+		live := false
+		for _, r := range delivBy[key.box] {
+			if r.M.ID == key.id && r.Reason == "" {
+				live = true
+			}
+		}
+		if live {
+			add("C16:deleted-event-for-live-message", "deleted event for %s/%s, which is still stored", key.box, key.id)
+		} else {
+			add("C16:deleted-event-unknown-identity", "deleted event for %s/%s, which never was in that mailbox", key.box, key.id)
+		}
+	}
+
+	// 4. Hub replay.
+	live := map[boxID]*mrec{}
+	pos := map[boxID]int{}
+	for i, r := range global {
+		pos[boxID{r.M.Mailbox, r.M.ID}] = i
+		if r.Reason == "" {
+			live[boxID{r.M.Mailbox, r.M.ID}] = r
+		}
+	}
+	if len(replay) > histLen {
+		add("C16:hub-history:too-long", "hub replayed %d messages with a history length of %d", len(replay), histLen)
+	}
+	seenR := map[boxID]bool{}
+	lastPos := -1
+	lastPosBox := map[string]int{}
+	for _, e := range replay {
+		key := boxID{e.Mailbox, e.ID}
+		if seenR[key] {
+			add("C16:hub-history:duplicate", "hub replayed %s/%s twice", e.Mailbox, e.ID)
+			continue
+		}
+		seenR[key] = true
+		p, known := pos[key]
+		if !known {
+			add("C16:hub-history:unknown-message", "hub replayed %s/%s, which was never delivered", e.Mailbox, e.ID)
+			continue
+		}
+		if _, ok := live[key]; !ok {
+			hk := "C16:hub-history:replays-deleted-message"
+			if inverted[key] {
+				// The hub listener was handed the same inverted order the harness listener saw.
+				hk += ":deleted-before-stored"
+			}
+			add(hk, "hub replayed %s/%s, which has left its mailbox (%s)", e.Mailbox, e.ID, global[p].Reason)
+			continue
+		}
+		if sequential {
+			if p < lastPos {
+				add("C16:hub-history:order", "hub replayed %s/%s after a message delivered later", e.Mailbox, e.ID)
+			}
+			lastPos = p
+		} else {
+			if lp, ok := lastPosBox[e.Mailbox]; ok && p < lp {
+				add("C16:hub-history:order", "hub replayed %s/%s after a later message of the same mailbox", e.Mailbox, e.ID)
+			}
+			lastPosBox[e.Mailbox] = p
+		}
+	}
+	if sequential {
+		from := len(global) - histLen
+		if from < 0 {
+			from = 0
+		}
+		for _, r := range global[from:] {
+			key := boxID{r.M.Mailbox, r.M.ID}
+			if r.Reason == "" && !strings.HasPrefix(r.M.ID, "?") && !seenR[key] {
+				add("C16:hub-history:missing-live-message", "hub did not replay %s/%s, a live message among the last %d stored", r.M.Mailbox, r.M.ID, histLen)
+			}
+		}
+	} else if len(global) <= histLen {
+		for key := range live {
+			if !strings.HasPrefix(key.id, "?") && !seenR[key] {
+				add("C16:hub-history:missing-live-message", "hub did not replay %s/%s although only %d messages were ever stored (history %d)", key.box, key.id, len(global), histLen)
+			}
+		}
+	}
+	return vs, st
+}
